@@ -5,6 +5,7 @@
 #include "vlafem.hpp"
 #include <kernel/lafem/saddle_point_matrix.hpp>
 #include <kernel/lafem/tuple_matrix.hpp>
+#include <kernel/lafem/tuple_diag_matrix.hpp>
 #include <kernel/lafem/tuple_vector.hpp>
 #include <kernel/lafem/power_diag_matrix.hpp>
 #include <kernel/lafem/power_full_matrix.hpp>
@@ -138,6 +139,16 @@ bool run_typed(Ctx& k, const std::string& tag)
     typedef TupleMatrixRow<L, L> Row;
     TupleMatrix<Row, Row> a(Row(leaf<DT, IT>(k.c, 1, 1), leaf<DT, IT>(k.c, 1, 2)), Row(leaf<DT, IT>(k.c, 2, 1), leaf<DT, IT>(k.c, 2, 2)));
     return run_meta<DT, IT, 0>(k, a, tag + "/tuple22");
+  }
+  if(kind == "tdiag2")
+  {
+    TupleDiagMatrix<L, L> a(leaf<DT, IT>(k.c, 1, 1), leaf<DT, IT>(k.c, 2, 2));
+    return run_meta<DT, IT, 1>(k, a, tag + "/tdiag2");
+  }
+  if(kind == "tdiag3")
+  {
+    TupleDiagMatrix<L, L, L> a(leaf<DT, IT>(k.c, 1, 1), leaf<DT, IT>(k.c, 2, 2), leaf<DT, IT>(k.c, 3, 3));
+    return run_meta<DT, IT, 1>(k, a, tag + "/tdiag3");
   }
   if(kind == "pdiag2")
   {
